@@ -13,7 +13,7 @@
                 match walk_to(*self.root, segs, Map::empty()) {
                     // no node for this path: 404
                     None => r is Err && status_of(r->Err_0) == 404,
-                    Some((n0, vars0)) => shadowed_by_wildcard(n0) /* known finding F5 */ || ({
+                    Some((n0, vars0)) => f5_exception(n0, m, version) /* known finding F5 */ || ({
                         let (n, vars) = end_step(n0, vars0);
                         match first_match(handlers_for(n, m), version) {
                             // C01: exactly the endpoint registered for (path node, method, version), with the
